@@ -94,8 +94,8 @@ func (b *Batch) Put(key []byte, value []byte) error {
 		b.cachedDataSize += newSize
 	} else {
 		// 如果缓存命中则直接修改缓存
-		logRecord.Key = key
-		logRecord.Value = value
+		// 暂存记录需持有独立副本, 调用方可能复用传入的切片 (key 内容相同无需更新)
+		logRecord.Value = append(logRecord.Value[:0], value...)
 		logRecord.Type = datafile.LogRecordNormal
 		b.cachedDataSize += newSize - oldSize
 	}
